@@ -7,7 +7,8 @@ LEVEL = "exploration"
 RULE = (
     "Cases: the routing scenarios of C11 (filters, redirect files incl. paired/interleaved variants, discarding, "
     "demultiplexing with {name} and {name1}/{name2} with and without --discard-untrimmed, --max-aer, modifying "
-    "options, --pair-filter), single-end and paired, with --json and the full or the minimal text report. Oracles: "
+    "options, --pair-filter), single-end and paired, with --json and the full or the minimal text report; sub-check "
+    "'cores' repeats this with 2-5 worker processes and several chunks (figures merged from the workers). Oracles: "
     "conservation law over all output files (every id at most once, only input ids), expected content of every file "
     "from the reference model, report figures recomputed per read (input, output, every filter category, base pairs "
     "in/out from the files themselves, quality-trimmed, poly-A-trimmed, with-adapter), input = output + sum of "
@@ -40,9 +41,35 @@ def check(sc, ctx):
         ctx.nontrivial_case({"args": ev.args, "fates": ev.fates})
 
 
-SUBS = {"counts": Sub(strategy=lambda tier: routing.routing_case("counts", "filters"), check=check)}
+def cores_case():
+    from checks import c06
+    from hypothesis import strategies as st
+
+    @st.composite
+    def strat(draw):
+        sc = draw(c06.mc_case("real"))
+        sc["sub"] = "cores"
+        sc.pop("extra", None)
+        sc["pre_args"] = ["-j", str(sc["workers"]), "--buffer-size", str(sc["buffer"])]
+        return sc
+
+    return strat()
+
+
+def check_cores(sc, ctx):
+    """The same clauses for multi-core runs: the figures are merged from several workers there."""
+    check(sc, ctx)
+    ctx.label(f"workers:{sc['workers']}")
+
+
+SUBS = {
+    "counts": Sub(strategy=lambda tier: routing.routing_case("counts", "filters"), check=check),
+    "cores": Sub(strategy=lambda tier: cores_case(), check=check_cores),
+}
 
 
 def plan(tier):
-    n, per = (14, 500) if tier == "quick" else (14, 15000)
-    return [{"sub": "counts", "kind": "hyp", "examples": per} for _ in range(n)]
+    n, per = (12, 500) if tier == "quick" else (12, 15000)
+    m, per2 = (4, 90) if tier == "quick" else (4, 2500)
+    return [{"sub": "counts", "kind": "hyp", "examples": per} for _ in range(n)] + \
+           [{"sub": "cores", "kind": "hyp", "examples": per2} for _ in range(m)]
